@@ -32,6 +32,7 @@ import types
 from common import Infra, corpus
 import realstack as rs
 import dsched
+import gen_denm
 
 import flexstack.facilities.decentralized_environmental_notification_service.denm_transmission_management as tm_mod
 import flexstack.facilities.local_dynamic_map.ldm_maintenance_reactive as ldm_mr_mod
@@ -78,6 +79,11 @@ ASSUMPTIONS = [
     "events of one station are requested in the order of their start times (sequence numbers are allocated when the "
     "repetition thread starts)",
     "fewer than 65536 events of one station are alive at the same time",
+    "thread scenarios (harness/dsched.py): `time.sleep` is a yield point and the clock stands still - cadence and "
+    "reference times are judged in the virtual-time scenarios, identity / position / circle centre / count per event "
+    "in the thread scenarios; pre-emption happens before attribute accesses and calls INSIDE the methods of "
+    "DENMTransmissionManagement reachable from its three entry points, the message class's fill methods and the coder "
+    "are entered and left without pre-emption",
     "self.vehicle_data of the transmission management is not rebound while an event repeats (nothing in the "
     "repository does; the code re-reads it at every repetition, the model reads the station id once per event)",
     "failure injection: a repetition 'fails' by btp_router.btp_data_request or denm_coder.encode raising an ordinary "
@@ -1021,8 +1027,11 @@ def body_codes():
     """code objects of the repetition body (fill -> encode -> GBC request): pre-emption before every attribute access /
     call inside them when a scenario says `body`"""
     cls = tm_mod.DENMTransmissionManagement
-    return [getattr(cls, n).__code__ for n in ("trigger_denm_messages", "transmit_denm", "send_collision_risk_warning_denm")
-            if hasattr(getattr(cls, n, None), "__code__")]
+    try:
+        names = gen_denm.analyse_body()["reach"]          # the methods the regenerated facts are about
+    except Exception:   # noqa: BLE001 - the generator failure is reported by the pipeline; fall back to the entry points
+        names = ["trigger_denm_messages", "transmit_denm", "send_collision_risk_warning_denm"]
+    return [getattr(cls, n).__code__ for n in names if hasattr(getattr(cls, n, None), "__code__")]
 
 
 class AllocRun:
@@ -1175,6 +1184,7 @@ ALLOC_SCENARIOS = [
     {"name": "overlap_two_requests", "body": True, "threads": [[["req", 2]], [["req", 2]]]},
     {"name": "overlap_request_vs_crw", "body": True, "threads": [[["req", 2]], [["crw"]]]},
     {"name": "overlap_three_kinds", "body": True, "threads": [[["rep", 1]], [["req", 2]], [["crw"]]]},
+    {"name": "overlap_warnings", "body": True, "threads": [[["crw"], ["crw"]], [["crw"]]]},
 ]
 
 
@@ -1287,9 +1297,9 @@ def check_alloc(ctx, search=False):
             # every schedule with ONE pre-emption anywhere in the repetition bodies (fewest pre-emptions first, capped in
             # the quick tier), then two; PCT on top
             if search:
-                explore_alloc(ctx, sc, 2, ctx.scale(900, 6000), ctx.scale(40, 400), observed, order="bfs")
+                explore_alloc(ctx, sc, 2, ctx.scale(900, 4000), ctx.scale(40, 300), observed, order="bfs")
             else:
-                explore_alloc(ctx, sc, 1 if not ctx.thorough else 2, ctx.scale(120, 6000), ctx.scale(6, 200), observed, order="bfs")
+                explore_alloc(ctx, sc, 1 if not ctx.thorough else 2, ctx.scale(80, 2500), ctx.scale(4, 150), observed, order="bfs")
             continue
         if search:
             explore_alloc(ctx, sc, 2, ctx.scale(600, 3000), ctx.scale(60, 400), observed)
